@@ -33,7 +33,11 @@ fn main() {
             continue;
         }
         let toks: Vec<&str> = line.split(' ').collect();
-        let res = dispatch(&toks);
+        // a panic the case code did not expect is still an outcome of that one case, never the end of the run
+        let res = match util::catch(|| dispatch(&toks)) {
+            Ok(s) => s,
+            Err(p) => format!("PANIC-UNCAUGHT {}", util::hex(p.as_bytes())),
+        };
         writeln!(out, "{}", res).unwrap();
     }
 }
